@@ -79,3 +79,57 @@ def c13_atr_inputs_recorded(ctx, v):
             seen = seen or rr == z3.sat
         v.covers_total += 1
         v.covers_sat += 1 if seen else 0
+
+
+def c13_generate_commits_every_atr(ctx, v):
+    """Block::generate (run on every received block before validation): every ATR-typed
+    transaction carried by the block is folded into the block's rebroadcast commitment
+    (rebroadcast_hash = hash(previous ‖ tx.serialize_for_signature())), whatever its slips look
+    like; transactions of other types are not.  Together with the validator's comparison of that
+    commitment with the recomputed one (c13_validate_rebroadcast_gate) an unsolicited ATR-typed
+    transaction cannot ride in an accepted block."""
+    body = ctx.body(r"block::<impl at [^>]*>::generate$")
+    for n in (1, 2):
+        ex = ctx.executor(loop_bound=n + 4, inline="auto", max_paths=8000,
+                          no_inline=[r"Transaction::generate$", r"generate_merkle_root$", r"generate_pre_hash$", r"generate_hash$", r"generate_transaction_hashmap$", r"serialize_for_signature$", r"generate_cumulative_fees$"])
+        ex.pure = [r".*"]
+        txs, types = [], []
+        for i in range(n):
+            t = ex.fresh_value("TransactionType", "tx%d.type" % i)
+            nout = 2
+            outs = [L.sym_slip(ctx, ex, "tx%d.out%d" % (i, k)) for k in range(nout)]
+            txs.append(ctx.mk_struct(ex, "Transaction", "tx%d" % i, transaction_type=t, **{"from": S.Seq([], "Slip"), "to": S.Seq(outs, "Slip"), "path": S.Seq([], "Hop")}))
+            types.append(t)
+        block = ctx.mk_struct(ex, "Block", "block", transactions=S.Seq(txs, "Transaction"))
+        st = S.State()
+        st.pc.extend([L.enum_in_range(t, L.TX_TYPES) for t in types])
+        for tx in txs:
+            for s in tx.fields[ctx.field_index("Transaction", "to")].items:
+                st.pc.append(L.enum_in_range(L.slip_field(ctx, s, "slip_type"), L.SLIP_TYPES))
+            st.pc.append(z3.ULE(tx.fields[ctx.field_index("Transaction", "total_work_for_me")].bv, 7 * 10**17))
+        outs = ex.run(body, [S.Ref(S.Cell(block), (), True)], st)
+        v.paths += len(outs)
+        seen = 0
+        for o in outs:
+            if o.kind in ("unsupported", "unwound", "path-limit"):
+                return v.undecided("n=%d %s %s" % (n, o.kind, o.info))
+            if o.kind != "return":
+                continue
+            # which transactions had their signing serialisation hashed into the commitment
+            folded = set()
+            for e in o.events:
+                if e[0] == "call" and re.search(r"Transaction::serialize_for_signature$", e[1]):
+                    a = e[2][0]
+                    if isinstance(a, S.Ref) and a.path and a.path[-1][0] == "i":
+                        folded.add(S.as_int(a.path[-1][1]))
+            for i in range(n):
+                is_atr = L.enum_is(ctx, types[i], "TransactionType", "ATR")
+                cond = z3.Not(is_atr) if i in folded else is_atr
+                r, m = ex.model_for(o.pc, cond)
+                v.queries += 1
+                if r == z3.sat:
+                    what = ("block of %d: an ATR-typed transaction is not folded into the rebroadcast commitment" % n) if i not in folded else ("block of %d: a non-ATR transaction is folded into the rebroadcast commitment" % n)
+                    v.fail(what, dict(tx=i, out_slip_types=[m.eval(L.slip_field(ctx, s, "slip_type").discr.bv, model_completion=True).as_long() for s in txs[i].fields[ctx.field_index("Transaction", "to")].items]))
+            seen += 1
+        v.covers_total += 1
+        v.covers_sat += 1 if seen else 0
